@@ -9,7 +9,10 @@ earlier state of the file. So the equivalence is checked along histories:
     write document 1 to P → generate(P) → write document 2 to P → generate(P) → …
 
 and after EVERY write generate(P) is compared — with the pair oracle of the str-vs-Path campaign, per top-level
-definition by ast.dump — with generate(<the text that is in the file now>).
+definition by ast.dump — with generate(<the text that is in the file now>) and, from the second write on, with
+generate(P') where P' is a copy of the same files made at that moment under a path that was never handed over (a sibling
+file is fetched from disk for a string too, so something remembered under the sibling's path would mislead both the
+string and the path; the fresh copy is the hand-over of the same documents that has no history).
 
 What is varied (by family, every history is made of documents of the ordinary schema-set generator):
 
@@ -129,6 +132,13 @@ def same(by_text: e2e.Result, by_path: e2e.Result, shape: str) -> tuple[str, str
     return c15_refs.compare_files(by_text, by_path, c15)
 
 
+def same_dirs(a: e2e.Result, b: e2e.Result) -> tuple[str, str] | None:
+    """two directory inputs with the same file names: the same modules, compared module by module"""
+    from . import c15, c15_refs
+
+    return c15_refs.compare_files(a, b, c15)
+
+
 # ------------------------------------------------------------------ the documents of one step
 def step_docs(step: dict, extra: dict) -> tuple[dict, str, dict | None]:
     """(main document, its kind, the sibling document or None)"""
@@ -186,25 +196,22 @@ def run_history(steps: list[dict], extra: dict) -> tuple[str, str, dict] | None:
         handed = holder if shape == "dir" else main
         cwd = d if shape == "sibling" else None
         text_results: list[e2e.Result] = []
-        prev_len: dict[str, int] = {}
+        # every text of the history first: with `same_length` all texts written to one path are padded to the longest of them
+        planned: list[tuple[str, str | None, str | None]] = []  # (input file type, main text or None = left alone, sibling text)
         for k, step in enumerate(steps):
             doc, kind, sib = step_docs(step, extra)
-            ift = "auto" if auto else kind
-            text = text_of(doc, suffix, step.get("style", "compact"))
-            if extra.get("same_length") and "main" in prev_len:
-                text = pad_to(text, prev_len["main"], enc)
-            if not (shape == "sibling" and k > 0 and step.get("main_unchanged")):
+            style = step.get("style", "compact")
+            keep_main = shape == "sibling" and k > 0 and bool(step.get("main_unchanged"))
+            planned.append(("auto" if auto else kind, None if keep_main else text_of(doc, suffix, style), None if sib is None else text_of(sib, suffix, style)))
+        if extra.get("same_length"):
+            for col in (1, 2):
+                longest = max((len(t[col].encode(enc)) for t in planned if t[col] is not None), default=0)
+                planned = [tuple(pad_to(x, longest, enc) if (c == col and x is not None) else x for c, x in enumerate(t)) for t in planned]  # type: ignore[misc]
+        for k, (ift, text, stext) in enumerate(planned):
+            if text is not None:
                 write(main, text, enc, bool(extra.get("keep_mtime")))
-                prev_len["main"] = len(text.encode(enc))
-            else:
-                text = main.read_text(encoding=enc)
-            if sib is not None:
-                sp = holder / (SIBLING + suffix)
-                stext = text_of(sib, suffix, step.get("style", "compact"))
-                if extra.get("same_length") and "sib" in prev_len:
-                    stext = pad_to(stext, prev_len["sib"], enc)
-                write(sp, stext, enc, bool(extra.get("keep_mtime")))
-                prev_len["sib"] = len(stext.encode(enc))
+            if stext is not None:
+                write(holder / (SIBLING + suffix), stext, enc, bool(extra.get("keep_mtime")))
             by_path = run_gen(handed, ift, enc, cwd)
             if extra.get("probe", "every") == "last" and k < len(steps) - 1:
                 text_results.append(e2e.Result(ok=False))
@@ -212,9 +219,22 @@ def run_history(steps: list[dict], extra: dict) -> tuple[str, str, dict] | None:
             by_text = run_gen(main.read_text(encoding=enc), ift, enc, cwd)
             text_results.append(by_text)
             r = same(by_text, by_path, shape)
+            against = "the file's current text"
             if r is False:
                 text_results[-1] = e2e.Result(ok=False)
                 continue
+            if r is None and k > 0:
+                # the same files under a path that has no history: a copy of the directory made now. (What is remembered under a
+                # path can mislead the string side too — a sibling file is fetched from disk for a string as well.)
+                fresh = os.path.realpath(tempfile.mkdtemp(dir=e2e.scratch_root()))
+                try:
+                    copy = Path(fresh) / "c"
+                    shutil.copytree(d, copy)
+                    by_fresh = run_gen(copy / handed.relative_to(d), ift, enc, str(copy) if cwd else None)
+                finally:
+                    shutil.rmtree(fresh, ignore_errors=True)
+                r = same_dirs(by_fresh, by_path) if shape == "dir" else same(by_fresh, by_path, shape)
+                against = "a fresh copy of the same files under another path"
             if r is not None:
                 stale = None
                 for j in range(k - 1, -1, -1):
@@ -222,9 +242,9 @@ def run_history(steps: list[dict], extra: dict) -> tuple[str, str, dict] | None:
                     if (old.ok or old.error_type) and same(old, by_path, shape) is None:
                         stale = j
                         break
-                return (r[0], f"after write {k + 1} of {len(steps)} to the same path (first = the file's current text, second = the path)"
+                return (r[0], f"after write {k + 1} of {len(steps)} to the same path (first = {against}, second = the path written to {k + 1} times)"
                         + (f" — the path gives what document {stale + 1} gave" if stale is not None else "") + f": {r[1]}",
-                        {"step": k, "stale_of_step": stale})
+                        {"step": k, "stale_of_step": stale, "against": against})
         return None
     finally:
         shutil.rmtree(d, ignore_errors=True)
@@ -298,6 +318,7 @@ def oracle_case(ck: Check, camp, steps: list[dict], extra: dict) -> None:
     ck.fail({"oracle": "equivalent_inputs", "pair": "str_vs_path", "family": "history:" + sx["shape"], "mechanism": mech, "trigger": trig, "style": "",
              "input_file_type": sx.get("ift", "explicit"), "file_suffix": sx["suffix"], "writes": len(small),
              "needs_history": needs_history, "path_gives_earlier_document": r2[2]["stale_of_step"] is not None,
+             "compared_with": "current_text" if r2[2]["against"].startswith("the file") else "fresh_copy",
              "has_exponent_float": "exponent_float" in trig, "has_astral_char": "astral_char" in trig},
             {"pair": PAIR, "steps": small, "extra": sx}, r2[1])
 
@@ -321,10 +342,12 @@ def gen_step(rng: Rng, extra: dict, kind: str) -> dict:
 
 def gen_history(rng: Rng, i: int) -> tuple[list[dict], dict]:
     shape = SHAPES[i % 3] if i % 4 != 3 else "file"
-    suffix = [".json", ".json", ".yaml", ".json", ".yml"][i % 5]
-    extra: dict[str, Any] = {"shape": shape, "suffix": suffix, "ift": "auto" if (i // 2) % 2 == 1 and shape != "sibling" or (shape == "sibling" and i % 8 == 2) else "explicit",
-                             "encoding": "utf-16" if i % 7 == 3 else "utf-8", "same_length": i % 3 == 1, "keep_mtime": i % 5 == 2,
-                             "probe": "last" if i % 6 == 4 else "every"}
+    suffix = rng.choice([".json", ".json", ".json", ".yaml", ".yml"])
+    # what a cache keyed by more than the path would look at: the size and/or the mtime of the file stay the same
+    disguise = rng.choice(["none", "none", "none", "same_length", "keep_mtime", "both", "both"])
+    extra: dict[str, Any] = {"shape": shape, "suffix": suffix, "ift": "auto" if rng.chance(2, 5) else "explicit",
+                             "encoding": "utf-16" if rng.chance(1, 6) else "utf-8", "same_length": disguise in ("same_length", "both"),
+                             "keep_mtime": disguise in ("keep_mtime", "both"), "probe": "last" if rng.chance(1, 6) else "every"}
     n = 2 if i % 4 else rng.range(3, 4)
     kinds = ["jsonschema"] * n
     if shape != "sibling":
@@ -364,7 +387,7 @@ CORPUS: list[tuple[list[dict], dict]] = [
     ([{"definitions": _A, "with_root": False, "kind": "jsonschema"}, {"definitions": _B, "with_root": False, "kind": "jsonschema"}],
      {"shape": "file", "suffix": ".json", "ift": "explicit", "encoding": "utf-16", "probe": "last"}),
     *[([{"definitions": _A, "sibling": _SA, "sibling_refs": ["Tol"]}, {"definitions": _A, "sibling": _SB, "sibling_refs": ["Tol"], "main_unchanged": unchanged}],
-       {"shape": "sibling", "suffix": suffix, "ift": "explicit", "encoding": "utf-8"})
+       {"shape": "sibling", "suffix": suffix, "ift": "explicit", "encoding": "utf-8", "same_length": unchanged, "keep_mtime": unchanged})
       for unchanged in (True, False) for suffix in (".json", ".yaml")],
 ]
 
